@@ -98,7 +98,9 @@ def path_oracle(res):
             if e['op'] == 'add_nli':
                 x = np.broadcast_to(e['arg'], e['b']['p'].shape) if e['arg'].ndim == 0 or \
                     e['arg'].shape in ((1,), e['b']['p'].shape) else None
-                scope = scope and x is not None and bool(np.all((x >= 0) & (x <= e['b']['p'])))
+                # out of scope only when the first-order NLI estimate exceeds the channel power; a negative increment
+                # computed by gnpy itself is judged
+                scope = scope and x is not None and bool(np.all((x <= e['b']['p']) | (x < 0)))
             if scope:
                 fails += quality_failures(PRIM_CLAIM[e['op']], e['b'], e['a'], f'{where} update #{k + 1} {e["op"]}')
         b, a = c['before'], c['after']
@@ -115,15 +117,16 @@ def path_oracle(res):
         idx0 = align(first, a)
         if idx0 is not None:
             fails += [(k + '_vs_launch', d) for k, d in quality_failures('any', sub(first, idx0), a, where + ' vs launch')]
+    res['out_of_scope'] = not scope
     # the reported figures: the noise added at the transceiver can only lower them
-    for u in res['updates']:
-        el = u['el']
-        if getattr(el, 'snr', None) is None:
+    for u in (res['updates'] if scope else []):
+        el, fig = u['el'], u['fig']
+        if fig is None:
             continue
         with np.errstate(all='ignore'):
             for nm, raw in (('snr', 'raw_snr'), ('osnr_ase', 'raw_osnr_ase'), ('snr_01nm', 'raw_snr_01nm'),
                             ('osnr_ase_01nm', 'raw_osnr_ase_01nm')):
-                v, r = np.asarray(getattr(el, nm), dtype=float), np.asarray(getattr(el, raw), dtype=float)
+                v, r = fig[nm], fig[raw]
                 i = first_bad(~(v > r + 1e-9))
                 if i is not None:
                     fails.append(('reported_improved', f'{el.uid}: reported {nm} {v[i]!r} dB above the propagated value {r[i]!r} dB'))
